@@ -261,6 +261,10 @@ def rule_o4(ctx):
 
 
 
+QUEUE_MUT = ("nni_lmq_put", "nni_lmq_get", "nni_lmq_flush", "nni_lmq_resize", "nni_list_append", "nni_list_prepend",
+             "nni_list_remove", "nni_list_insert_before", "nni_list_insert_after", "nni_aio_list_append", "nni_id_set", "nni_id_remove")
+
+
 def rule_o7(ctx):
     """lock discipline of protocol state (deviant-site rule): a field of a protocol's sock/pipe/ctx record that is written
     under a mutex at one site is written under a mutex at every site outside init/fini"""
@@ -303,6 +307,11 @@ def rule_o7(ctx):
                 tgt = n["lhs"]
             elif n.get("k") == "un" and n.get("op") in ("++", "--") and n["e"].get("k") == "mem":
                 tgt = n["e"]
+            if tgt is None and n.get("k") == "call" and n.get("fn") in QUEUE_MUT and n["args"]:
+                # a queue / list embedded in the record, changed through its API
+                a0 = f.expand(n["args"][0])
+                if a0 is not None and a0.get("k") == "un" and a0.get("op") == "&" and a0["e"].get("k") == "mem":
+                    tgt = a0["e"]
             if tgt is None:
                 continue
             lf = last_field(tgt)
